@@ -107,6 +107,8 @@ def check(ctx: Ctx) -> None:
     S.r_who_write_semaphore(ctx, "R15.7")
     S.r_acquire_dominates_create(ctx, "R15.8")
     S.r_limit_is_assigned_value(ctx, "R15.9")
+    # ... and as the registries: a task forgotten by flush() while it is still inside a callback ends with a KeyError before its slot is released
+    S.r_snapshot_forget(ctx, "R13.1")
     # constructor goes through the setter
     for f in ctx.pool_funcs("__init__"):
         if f.cls is not ctx.base:
